@@ -121,7 +121,7 @@ CLAIMS["C05"] = dict(
          "paths; DoHorizontal keeps its end-of-segment tests active for a horizontal open end; BuildPath64 and BuildPathD treat open paths alike; the builders pass isOpen according to outrec->is_open and are "
          "handed a real open-solution object by every caller (a null one would send open records down the closed branch); an edge that stops "
          "contributing clears its output record's pointer to itself (front_edge iff IsFront), at all three sites; has_open_paths_ is only ever "
-         "switched on where paths are added; the collinear / spike trimming of horizontals (TrimHorz) is only ever applied under a test that the edge is not open.",
+         "switched on where paths are added; the collinear / spike trimming of horizontals (TrimHorz) is only ever applied under a test that the edge is not open. The path builders' final filter discards only a closed three-point sliver (GUARD final-filter table).",
     note="Positions of the cuts, lengths and independence of the closed solution are NOT decided.",
     technique="static analysis: abstract interpretation of decision code over finite partitions + sibling identity",
     design="§3 E3/E6, §4 C05", engine="E3")
@@ -136,7 +136,7 @@ CLAIMS["C08"] = dict(
          "lines (engine E14) and answer 'touching' exactly when it lies strictly between the other segment's ends, whichever way the side runs "
          "(48 cells); GetIntersection reports the side the segment meets first for p in every side region and every possible (entry, exit) pair "
          "(76 cells); no point classification compares a coordinate of one axis with a bound of the other; the location RectClip64's scan starts with is the truth about "
-         "the last vertex (729 scenarios of the prologue). When a path ends outside, the corner steps added to close it are those of one walk from the end region through start_locs_ to the first-crossing region (CORNER.chain, 1360 cases).",
+         "the last vertex (729 scenarios of the prologue). When a path ends outside, the corner steps added to close it are those of one walk from the end region through start_locs_ to the first-crossing region (CORNER.chain, 1360 cases). Before the first crossing a segment that does not cross leaves the crossing marker at Inside (CROSSING.latched).",
     note="The location state machine, corner insertion and TidyEdges (the behaviour for crossing paths) are NOT decided.",
     technique="static analysis: abstract interpretation over orderings + loop-carried-state dataflow",
     design="§3 E3/E2, §4 C08", engine="E3")
@@ -148,7 +148,7 @@ CLAIMS["C09"] = dict(
          "exactly where the polyline enters the rectangle (all 24 location pairs; the pass-through case takes its first crossing from the far "
          "end of the segment); nothing written while clipping one polyline is read while clipping the next; the cut itself, as a real-number formula: GetSegmentIntersectPt's "
          "point lies on both lines and GetSegmentIntersection's touching cases store an end point that lies on both lines (engine E14) and answer "
-         "'touching' exactly when it lies strictly between the other segment's ends, whichever way the side runs (48 cells); GetIntersection reports the side met first (76 cells); GetNextLocation's table. The location the line scan starts with is the truth about the first vertex, and the whole path is copied only when no vertex is off the boundary (START.location).",
+         "'touching' exactly when it lies strictly between the other segment's ends, whichever way the side runs (48 cells); GetIntersection reports the side met first (76 cells); GetNextLocation's table. The location the line scan starts with is the truth about the first vertex, and the whole path is copied only when no vertex is off the boundary (START.location). GetSegmentIntersectPt never mixes x and y quantities in sums, comparisons or stores (AXIS.homogeneous, default and high-precision variants).",
     note="Partial: which rectangle edge GetIntersection tries, rounding, GetNextLocation's scan, the vertex order inside a piece and every tolerance of "
          "the statement (1.5 / 1 / 2 units) are NOT decided - the numeric content of C09 is out of reach of static analysis here.",
     technique="static analysis: abstract interpretation over orderings and the Location enum + loop-carried-state dataflow",
@@ -230,7 +230,7 @@ CLAIMS["C10"] = dict(
          "test it strictly; sort comparators are strict weak orders; edges handed to AddOutPt & co. carry output (HOT.guard); no "
          "pointer into RectClip's node store survives its reset; and, for the allocation-failure clause, every output-vertex ring is link-consistent "
          "at every statement that can throw and at every exit of the 14 functions that re-link rings (symbolic heap, all paths), and only "
-         "provably orphaned vertices are deleted - which is what ~ClipperBase needs to free the rings after a std::bad_alloc. Every new kept in a local pointer is handed on, deleted or known null on every path to an exit (ALLOC.owned).",
+         "provably orphaned vertices are deleted - which is what ~ClipperBase needs to free the rings after a std::bad_alloc. Every new kept in a local pointer is handed on, deleted or known null on every path to an exit (ALLOC.owned). BuildPath64/D reject a null ring before dereferencing it.",
     note="Termination, bounds of computed indices, lifetime of Active nodes, disjointness of the rings of different OutRecs, overflow of sums "
          "are NOT decided. LINK assumes distinct access paths denote distinct vertices.",
     technique="static analysis: size-fact dataflow with preconditions + IR call-graph reachability + type lint + comparator axioms + symbolic-heap "
